@@ -1224,12 +1224,19 @@ impl Kernel {
 
     /// waitpid in "try" form. Ok((pid,status)) / Ok((0,0)) for WNOHANG-running / Block / Err(ECHILD)
     pub fn try_waitpid(&mut self, caller: i32, who: Ent, pid: i32, flags: i32) -> KRes<(i32, i32)> {
-        let cands: Vec<i32> = self
+        let mut cands: Vec<i32> = self
             .procs
             .values()
             .filter(|p| p.ppid == caller && (pid == -1 || pid == 0 || p.pid == pid || (pid < -1 && p.pgid == -pid)))
             .map(|p| p.pid)
             .collect();
+        // Linux: __WNOTHREAD restricts the wait to the children the calling thread itself forked
+        const WNOTHREAD: i32 = 0x2000_0000;
+        if flags & WNOTHREAD != 0 {
+            if let Ent::Par(t) = who {
+                cands.retain(|c| self.proc(*c).forked_by.map(|f| f == t).unwrap_or(true));
+            }
+        }
         if cands.is_empty() {
             return Err(Blk::Err(libc::ECHILD));
         }
